@@ -48,7 +48,7 @@ def expect(op, args, minimal):
     name = OPS[op]
     if name == 'CAT':
         if len(args[0]) + len(args[1]) > 520:
-            return ANY          # longer than any push may be: the property does not say whether the concatenation or a size error results
+            return ERR          # no stack element is longer than 520 bytes: a concatenation that would be is an invalid operand pair (as in BIP347 and in the original OP_CAT)
         return ('val', [args[0] + args[1]])
     if name in ('SUBSTR', 'LEFT', 'RIGHT'):
         s = args[0]
